@@ -19,6 +19,7 @@ Named(e) ==
   CASE e.op = "Alloc" -> Alloc
     [] e.op = "AllocN" -> AllocN(e.k)
     [] e.op = "Put" -> Put(e.n, e.g, e.v)
+    [] e.op = "PutStm" -> PutStm(e.n, e.g, e.v)
     [] e.op = "OpenStream" -> OpenStream(e.n, e.g, e.v, e.lg)
     [] e.op = "OpenWhileOpen" -> OpenWhileOpen
     [] e.op = "StreamWrite" -> StreamWrite(e.k)
